@@ -137,6 +137,12 @@ func c15Build(c c15Config) *c15World {
 				switch c.Phase {
 				case "after-status":
 					ctx.ResponseWriter().WriteHeader(201)
+				case "after-status-204":
+					ctx.ResponseWriter().WriteHeader(204) // statuses that allow no body
+				case "after-status-304":
+					ctx.ResponseWriter().WriteHeader(304)
+				case "after-status-103":
+					ctx.ResponseWriter().WriteHeader(103)
 				case "after-body":
 					_, _ = ctx.ResponseWriter().Write([]byte("partial"))
 				case "after-next", "after-next-unanswered":
@@ -360,6 +366,12 @@ func c15CheckPanic(c c15Config, rs c15Resp) (bad, kind string) {
 	switch c.Phase {
 	case "after-status":
 		wantStatus = 201
+	case "after-status-204":
+		wantStatus = 204
+	case "after-status-304":
+		wantStatus = 304
+	case "after-status-103":
+		wantStatus = 103
 	case "after-body", "after-next", "after-flush":
 		wantStatus = 200
 	}
@@ -444,7 +456,7 @@ func c15Configs(thorough bool) []c15Config {
 	if thorough {
 		maxN = 5
 	}
-	phases := []string{"before-write", "after-status", "after-body", "after-next", "unresolved-dependency", "after-failed-hijack-and-push", "after-flush", "deep-recursion", "after-next-unanswered", "after-cancelling-the-request-context", "inside-a-before-function", "inside-two-before-functions", "status-code-the-underlying-writer-refuses"}
+	phases := []string{"before-write", "after-status", "after-body", "after-next", "unresolved-dependency", "after-failed-hijack-and-push", "after-flush", "deep-recursion", "after-next-unanswered", "after-cancelling-the-request-context", "inside-a-before-function", "inside-two-before-functions", "status-code-the-underlying-writer-refuses", "after-status-204", "after-status-304", "after-status-103"}
 	values := []string{"string", "error", "runtime", "struct", "abort", "nil-error-pointer", "panicking-stringer"}
 	styles := []string{"use", "route", "group", "use-action", "route-action"}
 	for n := 2; n <= maxN; n++ {
@@ -456,7 +468,7 @@ func c15Configs(thorough bool) []c15Config {
 							if ph == "unresolved-dependency" && v != "string" {
 								continue
 							}
-							if (ph == "after-failed-hijack-and-push" || ph == "after-flush" || ph == "deep-recursion" || ph == "after-next-unanswered" || ph == "after-cancelling-the-request-context" || ph == "inside-a-before-function" || ph == "inside-two-before-functions" || ph == "status-code-the-underlying-writer-refuses") && v != "string" && v != "runtime" && !thorough {
+							if (ph == "after-failed-hijack-and-push" || ph == "after-flush" || ph == "deep-recursion" || ph == "after-next-unanswered" || ph == "after-cancelling-the-request-context" || ph == "inside-a-before-function" || ph == "inside-two-before-functions" || ph == "status-code-the-underlying-writer-refuses" || strings.HasPrefix(ph, "after-status-")) && v != "string" && v != "runtime" && !thorough {
 								continue
 							}
 							for _, st := range styles {
